@@ -37,7 +37,9 @@ struct SeqProg { uint8_t vt; uint8_t limit; std::vector<Op> ops; };   // limit 0
 inline SeqProg decode_seq(hz::Reader &r, bool bounded) {
     SeqProg p;
     p.vt = (uint8_t)r.mod(bounded ? 2 : 4);
+    unsigned lraw = r.i < r.n ? r.p[r.i] : 0;       // (the upper bits of the limit byte select the fourth item type: older replay files keep their meaning)
     p.limit = bounded ? (uint8_t)(1 + r.mod(4)) : 0;
+    if (bounded && ((lraw >> 2) % 5) == 4) p.vt = 3;
     unsigned n = 0;
     while (r.more() && n < 60) { Op o; o.code = (uint8_t)r.mod(10); o.a = r.u8(); p.ops.push_back(o); n++; }
     return p;
@@ -99,14 +101,17 @@ struct SeqRun {
         int v = VT == 2 ? 0 : next_value++;
         int push_idx = -1;
         // odd values are pushed from a variable of the caller (an lvalue): the queue takes a copy, the variable stays intact
-        if constexpr (VT == 3) { q->push(2 + v % 3, v); goto pushed; }      // (two ints: vector<int>(n, v))
+        if constexpr (VT == 3) {      // (two ints: vector<int>(n, v))
+            if constexpr (BOUNDED) { push_idx = (int)pushes.size(); pushes.emplace_back(new PushF(q->push(2 + v % 3, v))); } else q->push(2 + v % 3, v);
+            goto pushed;
+        }
         if constexpr (VT != 2 && VT != 3) if (v & 1) {
             typename QT<VT>::T x = QT<VT>::mk(v);
             if constexpr (BOUNDED) { push_idx = (int)pushes.size(); pushes.emplace_back(new PushF(q->push(x))); } else q->push(x);
             HZ_CHECK(QT<VT>::dec(x) == v, "push(lvalue) changed the caller's variable: it reads %d after pushing %d (moved from instead of copied)", QT<VT>::dec(x), v);
             goto pushed;
         }
-        if constexpr (BOUNDED) {
+        if constexpr (BOUNDED && VT != 3) {
             push_idx = (int)pushes.size();
             pushes.emplace_back(new PushF(q->push(QT<VT>::mk(v))));
         } else {
@@ -218,7 +223,7 @@ inline void run_seq_t(const SeqProg &p) {
 }
 
 inline void run_seq(const SeqProg &p) {
-    if (p.limit) { if (p.vt == 0) run_seq_t<0, true>(p); else run_seq_t<1, true>(p); }
+    if (p.limit) { if (p.vt == 0) run_seq_t<0, true>(p); else if (p.vt == 3) run_seq_t<3, true>(p); else run_seq_t<1, true>(p); }
     else { if (p.vt == 0) run_seq_t<0, false>(p); else if (p.vt == 1) run_seq_t<1, false>(p); else if (p.vt == 2) run_seq_t<2, false>(p); else run_seq_t<3, false>(p); }
 }
 
